@@ -682,6 +682,37 @@ func (c *Ctx) checkDirectoryTLS() {
 	if getTLS == nil || start == nil {
 		return
 	}
+	// the client-authentication policy of a tls.Config is fixed when the config is built: a later assignment through
+	// any alias of a config that may be the one given to Run changes what the listener enforces at its next handshake
+	{
+		policy := map[string]bool{"ClientAuth": true, "ClientCAs": true, "VerifyPeerCertificate": true, "VerifyConnection": true, "GetConfigForClient": true, "InsecureSkipVerify": true}
+		n := 0
+		for _, f := range c.shippedFuncs(G, TD) {
+			an.Instrs(f, func(in ssa.Instruction) {
+				st, ok := in.(*ssa.Store)
+				if !ok {
+					return
+				}
+				fa, ok := st.Addr.(*ssa.FieldAddr)
+				if !ok || !an.TypeIs(fa.X.Type(), "crypto/tls", "Config") || !policy[an.FieldAddrName(fa)] {
+					return
+				}
+				n++
+				base := an.Strip(fa.X)
+				fresh := false
+				switch b := base.(type) {
+				case *ssa.Alloc:
+					fresh = true // a config literal being built
+				case *ssa.Call:
+					if g := b.Common().StaticCallee(); g != nil && an.FuncPkgPath(g) == "crypto/tls" && g.Name() == "Clone" {
+						fresh = true // a private copy
+					}
+				}
+				R.Check(fresh, "C18-directory", fname(f)+": tls.Config."+an.FieldAddrName(fa)+" assigned only while the config is built", c.pos(st), "assignment to a config literal (or a Clone) under construction", "tls.Config."+an.FieldAddrName(fa)+" is assigned through "+an.Path(fa.X)+", a config that already exists and may be the one the TLS listener uses: the client-certificate policy enforced by the listener changes at run time")
+			})
+		}
+		R.Count("C18-directory/policy-stores", n)
+	}
 	// the server config: first result of GetTLSConfig
 	rets := an.Returns(getTLS)
 	if len(rets) == 0 {
@@ -1168,6 +1199,30 @@ func checkC07(c *Ctx) {
 	}
 	R.Floor("C07-recover", 2)
 	R.Count("C07-recover/handler-goroutines", nGo)
+	// the recovery code must not panic itself: a panic raised inside the deferred function that called recover() (an
+	// unchecked assertion on the recovered value, an index, ...) is not recovered by anybody and ends the process
+	{
+		var recFns []*ssa.Function
+		for _, f := range shipped {
+			if callsRecoverDirectly(f) {
+				recFns = append(recFns, f)
+			}
+		}
+		if len(recFns) > 0 {
+			e := c.newPF()
+			sites, _ := e.run(recFns, false)
+			nBad := 0
+			for _, st := range sites {
+				if !st.OK {
+					nBad++
+					R.Fail("C07-recover", "recovery code is panic-free: "+st.Key, c.pos(st.Instr), "the function that recovers a panic can panic itself ("+st.Detail+"): that second panic is not recovered and takes the whole process down")
+				}
+			}
+			if nBad == 0 {
+				R.OK("C07-recover", "recovery code is panic-free", c.P.Pos(recFns[0].Pos()), sprintf("%d function(s) calling recover() and what they call: %d potential panic sites, all discharged", len(recFns), len(sites)))
+			}
+		}
+	}
 
 	// ---- C07-accept
 	errIfs := ifsOn(m.run, func(v ssa.Value) bool {
@@ -2239,12 +2294,15 @@ func (c *Ctx) listenErrIn(fn *ssa.Function, listen *ssa.Call) (func(ssa.Value) b
 	if hcall == nil {
 		return nil, nil, "the listen is more than one call away from " + fname(fn)
 	}
-	if h.Signature.Results().Len() != 1 || !isErrorType(h.Signature.Results().At(0).Type()) {
-		return nil, nil, fname(h) + " does not return just an error"
+	nres := h.Signature.Results().Len()
+	ei := nres - 1
+	if nres == 0 || !isErrorType(h.Signature.Results().At(ei).Type()) {
+		return nil, nil, fname(h) + " does not return an error as its last result"
 	}
-	// nil result <=> listen ok
+	// nil error <=> listen ok
 	for _, ret := range an.Returns(h) {
 		res := an.ReturnResults(ret)
+		res = []ssa.Value{res[ei]}
 		isNil := an.IsNilConst(an.Strip(res[0]))
 		okFact, failFact := false, false
 		for _, f := range an.BranchFacts(ret.Block()) {
@@ -2260,14 +2318,22 @@ func (c *Ctx) listenErrIn(fn *ssa.Function, listen *ssa.Call) (func(ssa.Value) b
 			}
 		}
 		switch {
-		case isNil && okFact, !isNil && failFact && (direct(res[0]) || true):
+		case isNil && okFact:
 		case !isNil && direct(res[0]):
-			// `return err` unconditionally: nil exactly when the listen succeeded
+			// `return err`: nil exactly when the listen succeeded
+		case !isNil && failFact && definitelyError(res[0], ret):
+			// a freshly built error on the failure side
 		default:
 			return nil, nil, fname(h) + " can return " + map[bool]string{true: "nil", false: "an error"}[isNil] + " independently of the listen result at " + c.pos(ret)
 		}
 	}
-	return func(x ssa.Value) bool { return an.Strip(x) == ssa.Value(hcall) }, hcall, ""
+	if nres == 1 {
+		return func(x ssa.Value) bool { return an.Strip(x) == ssa.Value(hcall) }, hcall, ""
+	}
+	return func(x ssa.Value) bool {
+		ex, ok := an.Strip(x).(*ssa.Extract)
+		return ok && ex.Tuple == ssa.Value(hcall) && ex.Index == ei
+	}, hcall, ""
 }
 
 // blockingSocketIO reports the blocking socket I/O a call performs, directly
@@ -2283,7 +2349,23 @@ func (c *Ctx) blockingSocketIO(ci ssa.CallInstruction, seen map[*ssa.Function]bo
 	}
 	if f := cc.StaticCallee(); f != nil && an.FuncPkgPath(f) == "crypto/tls" && f.Signature.Recv() != nil {
 		switch f.Name() {
-		case "Handshake", "HandshakeContext", "Read", "Write":
+		case "HandshakeContext":
+			// a handshake bound to the shutdown context (or one derived from it) is interrupted when the server stops
+			if len(cc.Args) == 2 {
+				ctx := an.StripX(cc.Args[1])
+				if c.isShutdownCtx(ctx) {
+					return ""
+				}
+				if ex, ok := ctx.(*ssa.Extract); ok && ex.Index == 0 {
+					if wc, ok := ex.Tuple.(*ssa.Call); ok {
+						if g := wc.Common().StaticCallee(); g != nil && an.FuncPkgPath(g) == "context" && strings.HasPrefix(g.Name(), "With") && len(wc.Common().Args) > 0 && c.isShutdownCtx(wc.Common().Args[0]) {
+							return ""
+						}
+					}
+				}
+			}
+			return "tls.Conn." + f.Name()
+		case "Handshake", "Read", "Write":
 			return "tls.Conn." + f.Name()
 		}
 	}
